@@ -601,7 +601,7 @@ func c19Sinks(w *W) {
 		_ = a.Start()
 		for round := 0; round < 2; round++ {
 			now := time.Now()
-			time.Sleep(now.Truncate(time.Second).Add(time.Second+2*time.Millisecond).Sub(now))
+			time.Sleep(now.Truncate(time.Second).Add(time.Second + 2*time.Millisecond).Sub(now))
 			a.Write([]byte("id-v1-1 after boundary\n")) // rotation -> go clearExpiredFiles()
 			for _, p := range names {
 				_ = os.Remove(p)
